@@ -377,6 +377,10 @@ func (e *Exec) modifiesLocs(env *Env, fc *FuncContract) []modLoc {
 	defer func() { env.inOld = savedOld }()
 	one := ConstI(1, Ref)
 	for _, m := range fc.Modifies {
+		if m.Kind == SIdent && e.C.GhostMaps[m.Name] {
+			out = append(out, modLoc{"ghost:" + m.Name, I64, nil, nil})
+			continue
+		}
 		if m.Kind == SCall && m.Args[0].Kind == SIdent && m.Args[0].Name == "mem" {
 			sv, ok := env.eval(m.Args[1]).(SliceV)
 			if !ok {
@@ -479,7 +483,9 @@ func (e *Exec) havocModifies(st, pre *State, env *Env, fc *FuncContract, ws *Wri
 				m = m.Havoc("mod", l.lo, l.hi)
 			}
 		}
-		if isElemFam(k) {
+		if strings.HasPrefix(k, "ghost:") {
+			// ghost maps have no allocation frontier
+		} else if isElemFam(k) {
 			m = m.Havoc("new", pre.allocTop, ConstI(staticBase, Ref))
 			if ws.Top || ws.AllocArr {
 				m = m.Havoc("newstatic", ConstI(staticBase*2, Ref), nil)
@@ -528,13 +534,17 @@ func (e *Exec) frameObligations(st *State, pos token.Pos) {
 		outside := True
 		for _, l := range locs {
 			if l.key == k {
-				outside = And(outside, Or(Lt(a, l.lo), Le(l.hi, a)))
+				if l.lo == nil {
+					outside = False
+				} else {
+					outside = And(outside, Or(Lt(a, l.lo), Le(l.hi, a)))
+				}
 			}
 		}
 		var old *Term
 		if isElemFam(k) {
 			old = And(Le(ConstI(0, Ref), a), Or(Lt(a, e.entry.allocTop), And(Le(ConstI(staticBase, Ref), a), Lt(a, ConstI(staticBase*2, Ref)))))
-		} else if strings.HasPrefix(k, "global:") {
+		} else if strings.HasPrefix(k, "global:") || strings.HasPrefix(k, "ghost:") {
 			old = True
 		} else {
 			old = And(Le(ConstI(0, Ref), a), Lt(a, e.entry.refTop))
